@@ -301,6 +301,14 @@ def run_clean(ctx) -> RuleResult:
     disj = cond.values if isinstance(cond, ast.BoolOp) and isinstance(cond.op, ast.Or) else [cond]
     keeps_nonzero = keeps_constant = False
     problems = []
+    formula = _term_formula(ctx, module, cond, exp_name, coef_name)
+    if formula is not None:
+        # any boolean combination of any(exponent) / any(coefficient): compare the truth table with 'C or not E'
+        keeps_nonzero = bool(formula(False, True)) and bool(formula(True, True))
+        keeps_constant = bool(formula(False, False))
+        if formula(True, False):
+            problems.append("all-zero non-constant terms are kept")
+        disj = []
     for part in disj:
         inner = _any_call(ctx, module, part)
         if inner is not None and isinstance(inner, ast.Name) and inner.id == coef_name:
@@ -343,13 +351,6 @@ def run_clean(ctx) -> RuleResult:
         result.add(Finding("R-CLEAN", module, "remove_redundant_coefficients", cond,
                            "the constant term (all-zero exponent) is no longer kept unconditionally",
                            construct="keep-predicate: constant term"))
-    fallback = [n for n in ast.walk(func) if isinstance(n, ast.If) and isinstance(n.test, ast.UnaryOp)
-                and isinstance(n.test.op, ast.Not)]
-    ok = bool(fallback) and any("zeros" in U(s) for s in fallback[0].body)
-    result.ob("falls back to the zero polynomial when every term is dropped", ok, module.loc(func), "")
-    if not ok:
-        result.add(Finding("R-CLEAN", module, "remove_redundant_coefficients", func,
-                           "no fall-back to a single zero term when all terms are dropped", construct="zero fall-back"))
     # the fall-back coefficient is a zero array with the shape and dtype of the input coefficients
     n_fb = 0
     for path in ctx.paths_auto(module, func):
@@ -374,6 +375,11 @@ def run_clean(ctx) -> RuleResult:
                 f"when every term is dropped the replacement coefficient is {_txt(coefs.elts[0])[:90]}: {why}; a result "
                 f"whose terms all cancel (p - p, 0 * p, an all-zero selection) silently changes "
                 f"{'shape' if 'shape' in why else 'dtype'}", construct="zero fall-back: shape/dtype"))
+    ok = n_fb > 0
+    result.ob("falls back to the zero polynomial when every term is dropped", ok, module.loc(func), "")
+    if not ok:
+        result.add(Finding("R-CLEAN", module, "remove_redundant_coefficients", func,
+                           "no fall-back to a single zero term when all terms are dropped", construct="zero fall-back"))
     # remove_redundant_names
     func = ctx.repo.function(modname, "remove_redundant_names")
     assigns = [n for n in ast.walk(func) if isinstance(n, ast.Assign) and isinstance(n.targets[0], ast.Name)
